@@ -267,7 +267,7 @@ pub fn run(tier: Tier, seed: u64) -> i32 {
         json!({"what": "(grammar, shell) instances in which a state expects two within-word automata with equal word languages that complgen keeps apart (C09's known finding F-permuted-twin-words)", "count": obs::TWIN_REGION_EXCLUDED.load(std::sync::atomic::Ordering::Relaxed)}),
     );
     if tier == Tier::Thorough && !run.failed() {
-        run.fuzz("libfuzzer", 1_500_000, 8, 600, fuzz_case);
+        run.fuzz("libfuzzer", 60_000, 8, 600, fuzz_case);
     }
     run.finish()
 }
